@@ -673,6 +673,32 @@ pub fn site_of(msg: &str) -> u64 {
             return *v;
         }
     }
+    if msg.contains("Option::unwrap()") {
+        // unwrap sites cannot be told apart by message: look at the source at the panic location
+        if let Some(loc) = msg.split(" @ ").last() {
+            let mut it = loc.rsplitn(2, ':');
+            let line: usize = it.next().and_then(|x| x.parse().ok()).unwrap_or(0);
+            let file = it.next().unwrap_or("");
+            if let Ok(text) = std::fs::read_to_string(file) {
+                let lines: Vec<&str> = text.lines().collect();
+                let lo = line.saturating_sub(4);
+                let hi = (line + 1).min(lines.len());
+                let window = lines[lo..hi].join(" ");
+                if file.ends_with("raft.rs") {
+                    if window.contains("self_id") || window.contains("get_mut(self.id)") || window.contains("get_mut(id)") {
+                        return 2005;
+                    }
+                    if window.contains("raft_log.term(") {
+                        return 2019;
+                    }
+                    return 2027;
+                }
+                if file.ends_with("raw_node.rs") && window.contains("records.back()") {
+                    return 2106;
+                }
+            }
+        }
+    }
     if msg.contains("left == right") || msg.contains("left: ") {
         if msg.contains("raft.rs") {
             return 2011; // assert_eq!(last_index, self.raft_log.persisted) is the only assert_eq in raft.rs reachable
